@@ -30,7 +30,7 @@ func runC16(c *Ctx) {
 	r := c.R
 	r.Rule("R16-exit-halts", "every way out of the command loop halts the search and clears the active flag before the output channel is closed", 3)
 	r.Rule("R16-close-owner", "the output channel is sent to only by the goroutine that closes it or by goroutines it has joined before closing", 1)
-	r.Rule("R16-stale", "a goroutine that can complete a search is tied to that search: joined before the next search is armed, or guarded by a per-search token; info lines are printed only for the search they belong to; the cleared flag cannot be won; completion is claimed and emitted by the command loop itself", 4)
+	r.Rule("R16-stale", "a goroutine that can complete a search is tied to that search: joined before the next search is armed, or guarded by a per-search token; info lines are printed only for the search they belong to; the cleared flag cannot be won; completion is claimed and emitted by the command loop itself; ids are fresh", 5)
 	r.Rule("R16-ready", "isready is always answered; no command other than quit (or end of input / close) terminates the command loop", 3)
 	r.Rule("R16-locks", "engine state is accessed only with the engine mutex held; driver state that is not atomic is touched only by the command-loop goroutine; goroutines started by the driver capture only the driver, the context, the result channel and the infinite flag", 4)
 	r.Rule("R16-noblock", "no mutex is held across a blocking channel receive whose producer needs the same mutex (the halt/publish hand-shake cannot deadlock)", 1)
@@ -246,7 +246,13 @@ func c16Channels(c *Ctx, d *driverModel) {
 	// search that completed), not a constant shared by all searches
 	tokenised, casOnBool := false, false
 	zeroWin := ""
-	for _, b := range d.searchCompleted.Blocks {
+	var complBlocks []*ssa.BasicBlock // the completion function and the driver helpers it is split into
+	for _, f := range funcFamily(d.searchCompleted) {
+		if f.Pkg == d.process.Pkg {
+			complBlocks = append(complBlocks, f.Blocks...)
+		}
+	}
+	for _, b := range complBlocks {
 		for _, ins := range b.Instrs {
 			if d.flagOp(ins) != "win" {
 				continue
@@ -323,6 +329,75 @@ func c16Channels(c *Ctx, d *driverModel) {
 	}
 	sort.Strings(outside)
 	r.Check(len(outside) == 0, "R16-stale", "searches are completed by the command loop itself", c.pos(d.process.Pos()), "", fmt.Sprintf("%v call the completion function from their own goroutine: the compare-and-swap that claims the answer and the sends that emit it are not atomic with respect to the command loop - 'go depth 1' (ends by itself, reader slow), 'position ...', 'go depth 1', 'isready' yields readyok followed by the first search's bestmove", outside))
+	// ids are fresh: where the flag is armed with a computed id, the counter the id is derived from is advanced
+	// (stored back, incremented) on the same path - otherwise every search gets the same id and ids tell nothing apart
+	stuck := ""
+	for _, fn := range c.P.AllFuncs {
+		if fn.Pkg != d.process.Pkg || fn.Blocks == nil {
+			continue
+		}
+		for _, b := range fn.Blocks {
+			for _, ins := range b.Instrs {
+				if d.flagOp(ins) != "arm" {
+					continue
+				}
+				armed := stripConv(ins.(ssa.CallInstruction).Common().Args[1])
+				if _, isConst := armed.(*ssa.Const); isConst {
+					continue // boolean design
+				}
+				// the integer driver field(s) the id is computed from
+				var counters []*types.Var
+				seen := map[ssa.Value]bool{}
+				var walk func(v ssa.Value, depth int)
+				walk = func(v ssa.Value, depth int) {
+					if v == nil || seen[v] || depth > 6 {
+						return
+					}
+					seen[v] = true
+					if u, ok := v.(*ssa.UnOp); ok && u.Op == token.MUL {
+						if fa, ok := u.X.(*ssa.FieldAddr); ok && namedOf(fa.X.Type()) != nil && namedOf(fa.X.Type()).Obj() == d.driverT.Obj() {
+							if f := fieldOfValue(fa); f != nil {
+								counters = append(counters, f)
+							}
+							return
+						}
+					}
+					if x, ok := v.(ssa.Instruction); ok {
+						if _, isCall := v.(*ssa.Call); isCall {
+							return
+						}
+						for _, op := range x.Operands(nil) {
+							if op != nil && *op != nil {
+								walk(*op, depth+1)
+							}
+						}
+					}
+				}
+				walk(armed, 0)
+				advanced := false
+				for _, b2 := range fn.Blocks {
+					for _, in2 := range b2.Instrs {
+						st, ok := in2.(*ssa.Store)
+						if !ok {
+							continue
+						}
+						f := fieldOfValue(st.Addr)
+						for _, cf := range counters {
+							if f == cf {
+								if bo, ok := stripConv(st.Val).(*ssa.BinOp); ok && bo.Op == token.ADD && instrDominates(in2, ins) {
+									advanced = true
+								}
+							}
+						}
+					}
+				}
+				if len(counters) == 0 || !advanced {
+					stuck = c.pos(ins.Pos())
+				}
+			}
+		}
+	}
+	r.Check(stuck == "", "R16-stale", "search ids are fresh", c.pos(d.process.Pos()), "", "the id armed at "+stuck+" is computed from a counter that is not advanced on that path: every search gets the same id, the completion message and info lines of a superseded search match the id of its successor and answer for it")
 	r.Check(zeroWin == "", "R16-stale", "the completion cannot win the cleared flag", c.pos(d.searchCompleted.Pos()), "", "the compare-and-swap at "+zeroWin+" accepts the cleared value as the expected id: a 'stop' that arrives after a search has ended by itself (flag clear, engine handle still registered) wins 0 -> 0 and answers a second time for the finished search")
 	r.Check(joined || tokenised || !casOnBool, "R16-stale", "search completion is guarded by one shared boolean", c.pos(d.searchCompleted.Pos()), "", "searchCompleted decides with CompareAndSwap(true,false) on a single atomic.Bool shared by all searches, and the forwarding goroutine of a superseded search is not joined (Engine.Halt returns before it has drained): after 'go', 'go' the forwarder of the first search can win the flag armed for the second and emit a stale bestmove")
 }
